@@ -75,6 +75,32 @@ theorem query_unfiltered_only_without_where (env : Env) (sel : Select) (hs : Boo
       simp only [Bool.or_eq_true, not_or, Bool.not_eq_true, Option.isSome_eq_false_iff, Option.isNone_iff_eq_none] at hc
       exact hc
 
+/-- **The request text a held cursor is compared with cannot change under it**: the rpc query handler either decodes the
+request into strings of its own or never hands the request buffer to a pool, and `ApplyState` refuses another query
+(regenerated; a `defer sc.Collect(reqBody)` beside the weak decoding flips the first fact). -/
+theorem held_query_text_is_stable :
+    (Generated.C05.rpcQueryRequestLifetime = "weak;kept" ∨ Generated.C05.rpcQueryRequestLifetime = "copied;kept" ∨
+      Generated.C05.rpcQueryRequestLifetime = "copied;released") ∧
+    Generated.C05.applyStateRefusesOtherQuery = true := by decide
+
+/-- **A request that names a held cursor's id but carries another query is answered from its own query**: the cursor it
+is served from carries the builder's filter of the request's own WHERE (or the request is rejected / served empty as
+any fresh request would be) — never the held cursor's filter. -/
+theorem held_id_other_query_uses_own_filter (env : Env) (held : Held) (qtext : Bytes) (sel : Select) (hs : Bool)
+    (hne : held.query ≠ qtext) :
+    getOrCreateHeld env held qtext sel hs = getOrCreate env sel hs ∧
+    (∀ f, getOrCreateHeld env held qtext sel hs = .ok (.real (some f)) → buildWhere env sel.where_ = .ok f) := by
+  have e : getOrCreateHeld env held qtext sel hs = getOrCreate env sel hs := by
+    simp [getOrCreateHeld, hne]
+  refine ⟨e, fun f h => ?_⟩
+  rw [e] at h
+  apply query_filter_is_builders env sel hs f
+  simp [WhereCallers.query, h]
+
+/-- the same id with the same query text is served from the held cursor (paging) -/
+example (env : Env) (held : Held) (sel : Select) (hs : Bool) :
+    getOrCreateHeld env held held.query sel hs = .ok (.real held.flt) := by simp [getOrCreateHeld]
+
 /-- **CREATE PIPE / CreatePipe with a filter text that does not parse or has no meaning is rejected and the registry is
 unchanged** -/
 theorem create_pipe_rejects (env : Env) (parse : Bytes → Option (Option Expr)) (reg : Registry) (name flt : Bytes)
